@@ -197,6 +197,62 @@ VP_HARNESS(h_build)
 #endif
 }
 
+/* ---- infos with the SAME name on one object: an info entry only carries (name, old value, new value) and is applied to the first match ---- */
+#ifndef DUPV
+#define DUPV 2          /* how many of the pool's strings each of the four values may take */
+#endif
+#ifndef DUPWHERE
+#define DUPWHERE 0      /* 0: two infos named "d" on PU1; 1: on the topology itself */
+#endif
+static void info2(struct hwloc_infos_s *infos, const char *n, char v0, char v1)
+{
+  struct hwloc_info_s *a = malloc(8 * sizeof(struct hwloc_info_s)); VP_NONNULL(a);
+  for (unsigned i = 0; i < 2; i++) { a[i].name = strdup(n); a[i].value = strdup("a"); VP_NONNULL(a[i].name); VP_NONNULL(a[i].value); }
+  a[0].value[0] = v0; a[1].value[0] = v1;
+  infos->array = a; infos->count = 2; infos->allocated = 8;
+}
+static unsigned dup_runs, dup_first, dup_second, dup_complex;
+/* one pair with CONCRETE values (the solver otherwise spends minutes on the string comparisons of 4 symbolic characters) */
+static void dup_case(unsigned a0, unsigned a1, unsigned b0, unsigned b1)
+{
+  struct hwloc_topology *A = vp_mini_build_at(&vp_mini); struct vp_seed SA; for (unsigned i = 0; i < 4; i++) SA.pu[i] = vp_mini.pu[i]; for (unsigned i = 0; i < 2; i++) { SA.numa[i] = vp_mini.numa[i]; SA.pkg[i] = vp_mini.pkg[i]; }
+  decorate(A, &SA);
+  struct hwloc_topology *B = vp_mini_build_at(&vp_second); struct vp_seed SB; for (unsigned i = 0; i < 4; i++) SB.pu[i] = vp_second.pu[i]; for (unsigned i = 0; i < 2; i++) { SB.numa[i] = vp_second.numa[i]; SB.pkg[i] = vp_second.pkg[i]; }
+  decorate(B, &SB);
+  struct hwloc_infos_s *ia = DUPWHERE ? &A->infos : &SA.pu[1]->infos, *ib = DUPWHERE ? &B->infos : &SB.pu[1]->infos;
+  info2(ia, "d", pool[a0][0], pool[a1][0]);
+  info2(ib, "d", pool[b0][0], pool[b1][0]);
+  hwloc_topology_diff_t diff = (void *) 1;
+  int r = hwloc_topology_diff_build(A, B, 0, &diff);
+  dup_runs++;
+  int has_complex = 0; unsigned cnt = 0;
+  for (hwloc_topology_diff_t x = diff; x && cnt < 8; x = x->generic.next, cnt++) if (x->generic.type == HWLOC_TOPOLOGY_DIFF_TOO_COMPLEX) has_complex = 1;
+  VP_CHECK(r == 0 || r == 1, "build(dup): returns 0 or 1");
+  VP_CHECK((r == 1) == has_complex, "build(dup): a TOO_COMPLEX entry exactly when it returns 1");
+  if (r == 1) { dup_complex++; return; }
+  VP_CHECK((diff == NULL) == (a0 == b0 && a1 == b1), "build(dup): NULL diff iff nothing differs");
+  int ra = hwloc_topology_diff_apply(A, diff, 0);
+  VP_CHECK(ra == 0, "build(dup): apply of a built diff succeeds");
+  VP_CHECK(ia->count == 2 && ia->array[0].value[0] == pool[b0][0] && ia->array[1].value[0] == pool[b1][0], "build(dup): apply makes each of the same-named infos of A equal to the one of B at the same place");
+  hwloc_topology_diff_t diff2 = (void *) 1;
+  VP_CHECK(hwloc_topology_diff_build(A, B, 0, &diff2) == 0 && diff2 == NULL, "build(dup): after apply, diff_build(A, B) is empty");
+  int rr = hwloc_topology_diff_apply(A, diff, HWLOC_TOPOLOGY_DIFF_APPLY_REVERSE);
+  VP_CHECK(rr == 0 && ia->array[0].value[0] == pool[a0][0] && ia->array[1].value[0] == pool[a1][0], "build(dup): APPLY_REVERSE restores A");
+  if (a0 != b0 && a1 == b1) dup_first++;
+  if (a0 == b0 && a1 != b1) dup_second++;
+}
+VP_HARNESS(h_build_dup)
+{
+  unsigned sel = (unsigned) vp_in_range(0, DUPV * DUPV * DUPV * DUPV - 1), k = 0;
+  for (unsigned a0 = 0; a0 < DUPV; a0++) for (unsigned a1 = 0; a1 < DUPV; a1++) for (unsigned b0 = 0; b0 < DUPV; b0++) for (unsigned b1 = 0; b1 < DUPV; b1++, k++)
+    if (sel == k) dup_case(a0, a1, b0, b1);
+  VP_WITNESS_IF(dup_first >= 1, "the first of two same-named infos changed, applied and reversed");
+#if DUPV >= 3
+  VP_WITNESS_IF(dup_second >= 1, "the second of two same-named infos changed (three distinct values: expressible), applied and reversed");
+#endif
+  VP_WITNESS_IF(dup_complex >= 1, "a change that (name, old value, new value) cannot designate is reported as too complex");
+}
+
 /* native self-test of the hand-linked topology: the real checker must accept it */
 VP_HARNESS(h_mini_ok)
 {
